@@ -27,10 +27,12 @@ import (
 )
 
 type frtOpResp struct {
-	LatMs int    `json:"lat_ms"`
-	Req   string `json:"req,omitempty"` // "" ok | fail | silent
-	Val   int    `json:"val,omitempty"`
-	Provs []int  `json:"provs,omitempty"`
+	LatMs  int    `json:"lat_ms"`
+	Req    string `json:"req,omitempty"` // "" ok | fail | silent
+	Val    int    `json:"val,omitempty"`
+	Provs  []int  `json:"provs,omitempty"`
+	Knows  bool   `json:"knows_target,omitempty"` // FIND_NODE: the answer lists the requested peer with an address
+	LateMs int    `json:"late_ms,omitempty"`      // an answer that is at most this far away when the request's context ends is delivered all the same
 }
 
 type frtOpSc struct {
@@ -51,7 +53,7 @@ func TestVerif_C03_FullRT(t *testing.T) {
 	verifsim.RunCheck(t, verifsim.Check[frtOpSc]{
 		Property: "C03", Part: "fullrt",
 		Rule: "rapid: operation in {FindPeer, GetValue, SearchValue (quorum 0/1/2/16), FindProvidersAsync (count 0/1/2/5), PutValue, Provide, ProvideMany, PutMany} on an accelerated client over a crawl of 1-30 peers (K 1-8) whose " +
-			"responders answer after 1-12000 ms, fail or stay silent (mixes: healthy, mixed, all failing, all silent) x cancellation instant (never, uniform 1-20000 ms); under synctest: the call returns within 1 s of virtual time after the last " +
+			"responders answer after 1-12000 ms (FIND_NODE answers with or without the requested peer; some deliver an answer that was 1-400 ms away when the request's context ended), fail or stay silent (mixes: healthy, mixed, all failing, all silent) x cancellation instant (never, uniform 1-20000 ms, 0-300 ms before a responder's answer is due); under synctest: the call returns within 1 s of virtual time after the last " +
 			"contacted peer answered/failed/timed out or after the client's own per-operation timeout, whichever is first, and within 1 s of a cancellation; channels are drained to closure (or abandoned by the consumer the moment it cancels); no panic; 10 min after the return plus Close no goroutine " +
 			"of the bubble is alive; non-trivial = a failing or silent peer among the responders, or a cancellation that landed inside the operation",
 		Gen: func(t *rapid.T) frtOpSc {
@@ -70,6 +72,10 @@ func TestVerif_C03_FullRT(t *testing.T) {
 				}
 				r.Val = rapid.SampledFrom([]int{0, 1, 2, 3, -1}).Draw(t, "val")
 				r.Provs = rapid.SliceOfN(rapid.IntRange(0, 7), 0, 3).Draw(t, "provs")
+				r.Knows = rapid.Bool().Draw(t, "knowsTarget")
+				if verifsim.Chance(t, "late", 35) {
+					r.LateMs = rapid.SampledFrom([]int{1, 30, 400}).Draw(t, "lateMs")
+				}
 				return r
 			}), 1, 8).Draw(t, "resp")
 			sc.Op = rapid.SampledFrom([]string{"findpeer", "getvalue", "searchvalue", "findprovasync", "putvalue", "provide", "providemany", "putmany"}).Draw(t, "op")
@@ -77,6 +83,11 @@ func TestVerif_C03_FullRT(t *testing.T) {
 			sc.Count = rapid.SampledFrom([]int{0, 1, 2, 5}).Draw(t, "count")
 			if verifsim.Chance(t, "cancel", 40) {
 				sc.CancelMs = rapid.IntRange(1, 20000).Draw(t, "cancelMs")
+				if rapid.Bool().Draw(t, "cancelNearAnswer") {
+					// just before (or at) the instant a responder's answer is due
+					r := sc.Resp[rapid.IntRange(0, len(sc.Resp)-1).Draw(t, "cancelResp")]
+					sc.CancelMs = max(1, r.LatMs-rapid.SampledFrom([]int{0, 1, 20, 300}).Draw(t, "cancelBefore"))
+				}
 			}
 			sc.Target = rapid.IntRange(0, 35).Draw(t, "target")
 			sc.Abandon = sc.CancelMs > 0 && rapid.Bool().Draw(t, "abandon")
@@ -116,6 +127,10 @@ func TestVerif_C03_FullRT(t *testing.T) {
 					}
 					resp := &pb.Message{Type: req.Type, Key: req.Key}
 					switch req.Type {
+					case pb.Message_FIND_NODE:
+						if r.Knows {
+							resp.CloserPeers = []*pb.Message_Peer{{Id: req.Key, Addrs: [][]byte{ma.StringCast(fmt.Sprintf("/ip4/8.88.%d.1/tcp/4001", i%250)).Bytes()}}}
+						}
 					case pb.Message_GET_VALUE:
 						resp.Record = frtValueOf(frtValResponder{Val: r.Val}, string(req.Key))
 					case pb.Message_PUT_VALUE:
@@ -125,7 +140,7 @@ func TestVerif_C03_FullRT(t *testing.T) {
 							resp.ProviderPeers = append(resp.ProviderPeers, &pb.Message_Peer{Id: []byte(frtProvID(pn)), Addrs: [][]byte{ma.StringCast(fmt.Sprintf("/ip4/8.77.%d.1/tcp/4001", pn)).Bytes()}})
 						}
 					}
-					return verifnet.Reply{Latency: lat, Resp: resp}
+					return verifnet.Reply{Latency: lat, Resp: resp, LateGrace: time.Duration(r.LateMs) * time.Millisecond}
 				}
 				d, err := newFullRT(h, sc.K, 0, &fakeCrawler{peers: ids}, sim, kaddht.Validator(record.NamespacedValidator{"v": frtValidator{}}))
 				if err != nil {
